@@ -1801,3 +1801,266 @@ theorem nsOK_init (b : Base) : NsOK b init := by
   intro x i hx; simp [init, Dict.get?] at hx
 
 end PtCore
+
+namespace PtCore
+
+/-! ## restoring always succeeds; valid keys succeed -/
+
+/-- pickling / copying any existing atom and restoring it gives back that very atom, and changes
+    nothing (every object is in the cache slot of its key) -/
+theorem reduce_total {b : Base} {s : State} (hs : Inv b s) {o : Nat} {ob : Obj} (ho : s.obj o = some ob) :
+    step b s (.reduce o) = (s, .obj o) := by
+  cases ob with
+  | element t z =>
+    have hk := keyOf_element ho
+    have ht := (hs.elemBase _ _ _ ho).1
+    have he := hs.elemUniq _ _ _ ho
+    simp [step, hk, ht, State.path, he]
+  | isotope e a =>
+    obtain ⟨t, z, hoe, hk⟩ := keyOf_isotope hs ho
+    have ht := (hs.elemBase _ _ _ hoe).1
+    have he := hs.elemUniq _ _ _ hoe
+    have hi := (hs.isoUniq _ _ _ ho).1
+    simp [step, hk, ht, State.path, he, State.isoGet, hi]
+  | ion w q =>
+    have hc := (hs.ionUniq _ _ _ ho).1
+    rcases keyOf_ion hs ho with ⟨t, z, hw, hk⟩ | ⟨e, a, t, z, hw, hoe, hk⟩
+    · have ht := (hs.elemBase _ _ _ hw).1
+      have he := hs.elemUniq _ _ _ hw
+      simp [step, hk, ht, State.path, he, State.ionGet, hc]
+    · have ht := (hs.elemBase _ _ _ hoe).1
+      have he := hs.elemUniq _ _ _ hoe
+      have hi := (hs.isoUniq _ _ _ hw).1
+      simp [step, hk, ht, State.path, he, State.isoGet, hi, State.ionGet, hc]
+
+/-- a valid charge always yields the ion (cached or new) -/
+theorem ion_total {b : Base} {s : State} (hs : Inv b s) {o w e : Nat} {t : String} {z : Nat} {r : BaseRow}
+    {q : Int} (hw : s.ionOwner o = some w) (hel : s.elemOf w = some (e, t, z)) (hr : b.row? z = some r)
+    (hq : q ∈ r.ions) : ∃ i, (step b s (.ion o q)).2 = .obj i := by
+  simp only [step, hw, State.ionGet]
+  cases hg : (s.ionsOf w).get? q with
+  | some i => exact ⟨i, rfl⟩
+  | none => simp [hel, hr, hq, State.alloc]
+
+/-- every table in `PRIVATE_TABLES` has, for every row of `element_base`, one element object that
+    both `table[Z]` and the attribute named by the symbol hold -/
+def TablesOK (b : Base) (s : State) : Prop :=
+  ∀ t ∈ s.tables, ∀ r ∈ b, ∃ i, s.elems.get? (t, r.z) = some i ∧ s.attrs.get? (t, r.symbol) = some i
+
+theorem fold_complete {t : String} :
+    ∀ (rows : List BaseRow) (s : State), (rows.map (·.z)).Nodup → (rows.map (·.symbol)).Nodup →
+      let s' := rows.foldl (fun st r => st.mkElement t r) s
+      (∀ r ∈ rows, ∃ i, s'.elems.get? (t, r.z) = some i ∧ s'.attrs.get? (t, r.symbol) = some i) ∧
+      (∀ k, (∀ r ∈ rows, k ≠ (t, r.z)) → s'.elems.get? k = s.elems.get? k) ∧
+      (∀ k, (∀ r ∈ rows, k ≠ (t, r.symbol)) → s'.attrs.get? k = s.attrs.get? k) := by
+  intro rows
+  induction rows with
+  | nil => intro s _ _; exact ⟨fun _ h => (by cases h), fun _ _ => rfl, fun _ _ => rfl⟩
+  | cons r rows ih =>
+    intro s hz hsym
+    have hz' : r.z ∉ rows.map (·.z) ∧ (rows.map (·.z)).Nodup := List.nodup_cons.mp hz
+    have hs' : r.symbol ∉ rows.map (·.symbol) ∧ (rows.map (·.symbol)).Nodup := List.nodup_cons.mp hsym
+    simp only [List.foldl_cons]
+    obtain ⟨i1, i2, i3⟩ := ih (s.mkElement t r) hz'.2 hs'.2
+    refine ⟨?_, ?_, ?_⟩
+    · intro r' hr'
+      rcases List.mem_cons.mp hr' with rfl | hmem
+      · refine ⟨s.objs.size, ?_, ?_⟩
+        · rw [i2 _ (fun r'' h'' hk => hz'.1 (List.mem_map.mpr ⟨r'', h'', (congrArg Prod.snd hk).symm⟩)),
+            elems_mkElement, if_pos rfl]
+        · rw [i3 _ (fun r'' h'' hk => hs'.1 (List.mem_map.mpr ⟨r'', h'', (congrArg Prod.snd hk).symm⟩)),
+            attrs_mkElement, if_pos rfl]
+      · exact i1 r' hmem
+    · intro k hk
+      rw [i2 k (fun r' h' => hk r' (List.mem_cons_of_mem _ h')), elems_mkElement,
+        if_neg (fun h => hk r (List.mem_cons_self ..) h.symm)]
+    · intro k hk
+      rw [i3 k (fun r' h' => hk r' (List.mem_cons_of_mem _ h')), attrs_mkElement,
+        if_neg (fun h => hk r (List.mem_cons_self ..) h.symm)]
+
+theorem frame_step_ne (b : Base) (s : State) (op : Op) (hop : ∀ t, op ≠ .newTable t) :
+    (step b s op).1.tables = s.tables ∧ (step b s op).1.elems = s.elems ∧ (step b s op).1.attrs = s.attrs := by
+  cases op with
+  | defineElements t => simp only [step]; split <;> exact ⟨rfl, rfl, rfl⟩
+  | newTable t => exact absurd rfl (hop t)
+  | getZ _ _ => exact ⟨rfl, rfl, rfl⟩
+  | symbol _ _ => simp only [step]; split <;> exact ⟨rfl, rfl, rfl⟩
+  | name _ _ =>
+    simp only [step]
+    split
+    · exact ⟨rfl, rfl, rfl⟩
+    · split
+      · exact ⟨rfl, rfl, rfl⟩
+      · split <;> exact ⟨rfl, rfl, rfl⟩
+  | isotope _ _ =>
+    simp only [step]
+    split
+    · split
+      · split
+        · exact ⟨rfl, rfl, rfl⟩
+        · split
+          · exact ⟨rfl, rfl, rfl⟩
+          · split <;> exact ⟨rfl, rfl, rfl⟩
+      · split <;> exact ⟨rfl, rfl, rfl⟩
+      · exact ⟨rfl, rfl, rfl⟩
+    · exact ⟨rfl, rfl, rfl⟩
+  | attr _ _ => simp only [step]; split <;> exact ⟨rfl, rfl, rfl⟩
+  | modAttr _ => simp only [step]; split <;> exact ⟨rfl, rfl, rfl⟩
+  | iso _ _ => simp only [step]; split <;> exact ⟨rfl, rfl, rfl⟩
+  | addIsotope o a =>
+    simp only [step]
+    split
+    · simp only [State.addIsotope]; split <;> exact ⟨rfl, rfl, rfl⟩
+    · exact ⟨rfl, rfl, rfl⟩
+  | ion o q =>
+    simp only [step]
+    split
+    · simp only [State.ionGet]
+      split
+      · exact ⟨rfl, rfl, rfl⟩
+      · split
+        · split
+          · split <;> exact ⟨rfl, rfl, rfl⟩
+          · exact ⟨rfl, rfl, rfl⟩
+        · exact ⟨rfl, rfl, rfl⟩
+    · exact ⟨rfl, rfl, rfl⟩
+  | element _ => simp only [step]; split <;> exact ⟨rfl, rfl, rfl⟩
+  | isotopes _ => simp only [step]; split <;> exact ⟨rfl, rfl, rfl⟩
+  | iterTable _ => simp only [step]; split <;> exact ⟨rfl, rfl, rfl⟩
+  | iterIso _ => simp only [step]; split <;> exact ⟨rfl, rfl, rfl⟩
+  | reduce o =>
+    simp only [step]
+    split
+    · split
+      · simp only [State.path]
+        split
+        · exact ⟨rfl, rfl, rfl⟩
+        · split
+          · simp only [State.ionGet]
+            split
+            · exact ⟨rfl, rfl, rfl⟩
+            · split
+              · split
+                · split <;> exact ⟨rfl, rfl, rfl⟩
+                · exact ⟨rfl, rfl, rfl⟩
+              · exact ⟨rfl, rfl, rfl⟩
+          · exact ⟨rfl, rfl, rfl⟩
+      · exact ⟨rfl, rfl, rfl⟩
+    · exact ⟨rfl, rfl, rfl⟩
+  | changeTable o t =>
+    simp only [step]
+    split
+    · split
+      · simp only [State.path]
+        split
+        · exact ⟨rfl, rfl, rfl⟩
+        · split
+          · simp only [State.ionGet]
+            split
+            · exact ⟨rfl, rfl, rfl⟩
+            · split
+              · split
+                · split <;> exact ⟨rfl, rfl, rfl⟩
+                · exact ⟨rfl, rfl, rfl⟩
+              · exact ⟨rfl, rfl, rfl⟩
+          · exact ⟨rfl, rfl, rfl⟩
+      · exact ⟨rfl, rfl, rfl⟩
+    · exact ⟨rfl, rfl, rfl⟩
+
+
+end PtCore
+
+namespace PtCore
+
+theorem mkAlias_frame {st st' : State} {t sy nm : String} {a : Nat} (h : st.mkAlias t sy nm a = some st') :
+    st'.elems = st.elems ∧ st'.tables = st.tables ∧ ∀ k, k ≠ (t, sy) → st'.attrs.get? k = st.attrs.get? k := by
+  have haddE : ∀ e a, (st.addIsotope e a).1.elems = st.elems ∧ (st.addIsotope e a).1.tables = st.tables ∧
+      (st.addIsotope e a).1.attrs = st.attrs := by
+    intro e a
+    simp only [State.addIsotope]
+    split <;> exact ⟨rfl, rfl, rfl⟩
+  unfold State.mkAlias at h
+  cases hH : st.attrs.get? (t, "H") with
+  | none => simp [hH] at h
+  | some hh =>
+    simp only [hH] at h
+    cases ho : st.obj hh with
+    | none => simp [ho] at h
+    | some ob =>
+      cases ob with
+      | element t0 z0 =>
+        simp only [ho, Option.some.injEq] at h
+        rw [← h]
+        obtain ⟨e1, e2, e3⟩ := haddE hh a
+        refine ⟨e1, e2, fun k hk => ?_⟩
+        simp only
+        rw [Dict.get?_set, if_neg (fun hh => hk hh.symm), e3]
+      | isotope _ _ => simp [ho] at h
+      | ion _ _ => simp [ho] at h
+
+theorem tablesOK_newTable {b : Base} (hz : (b.map (·.z)).Nodup) (hsym : (b.map (·.symbol)).Nodup)
+    (hdt : DTFree b) {s : State} (hok : TablesOK b s) (t : String) : TablesOK b (s.newTable b t).1 := by
+  unfold State.newTable
+  by_cases ht : t ∈ s.tables
+  · simp only [ht, ↓reduceIte]; exact hok
+  · simp only [ht, ↓reduceIte]
+    let s1 : State := { s with tables := t :: s.tables }
+    obtain ⟨c1, c2, c3⟩ := fold_complete (t := t) b s1 hz hsym
+    generalize hs2 : List.foldl (fun st r => st.mkElement t r) s1 b = s2 at c1 c2 c3
+    have htab2 : s2.tables = t :: s.tables := by
+      rw [← hs2]
+      have : ∀ (rows : List BaseRow) (st : State),
+          (rows.foldl (fun st r => st.mkElement t r) st).tables = st.tables := by
+        intro rows
+        induction rows with
+        | nil => intro st; rfl
+        | cons r rows ih => intro st; simp only [List.foldl_cons]; rw [ih]; rfl
+      exact this b s1
+    -- the property for a state that agrees with s2 on elems and on all attributes but (t, D/T)
+    have key : ∀ (st : State), st.tables = t :: s.tables → st.elems = s2.elems →
+        (∀ k, k ≠ (t, "D") → k ≠ (t, "T") → st.attrs.get? k = s2.attrs.get? k) → TablesOK b st := by
+      intro st htab hel hat t0 ht0 r hr
+      rw [htab] at ht0
+      have hne : (t0, r.symbol) ≠ (t, "D") ∧ (t0, r.symbol) ≠ (t, "T") :=
+        ⟨fun h => (hdt r hr).1 (congrArg Prod.snd h), fun h => (hdt r hr).2 (congrArg Prod.snd h)⟩
+      rw [hel, hat _ hne.1 hne.2]
+      rcases List.mem_cons.mp ht0 with rfl | hold
+      · exact c1 r hr
+      · have hne0 : t0 ≠ t := fun h => ht (h ▸ hold)
+        obtain ⟨i, h1, h2⟩ := hok t0 hold r hr
+        refine ⟨i, ?_, ?_⟩
+        · rw [c2 _ (fun r' _ hk => hne0 (congrArg Prod.fst hk))]; exact h1
+        · rw [c3 _ (fun r' _ hk => hne0 (congrArg Prod.fst hk))]; exact h2
+    cases h3 : s2.mkAlias t "D" "deuterium" 2 with
+    | none => exact key s2 htab2 rfl (fun _ _ _ => rfl)
+    | some s3 =>
+      obtain ⟨e1, e2, e3⟩ := mkAlias_frame h3
+      simp only
+      cases h4 : s3.mkAlias t "T" "tritium" 3 with
+      | none =>
+        exact key s3 (by rw [e2, htab2]) e1 (fun k hk _ => e3 k hk)
+      | some s4 =>
+        obtain ⟨f1, f2, f3⟩ := mkAlias_frame h4
+        exact key s4 (by rw [f2, e2, htab2]) (by rw [f1, e1])
+          (fun k hk1 hk2 => by rw [f3 k hk2, e3 k hk1])
+
+theorem tablesOK_step {b : Base} (hz : (b.map (·.z)).Nodup) (hsym : (b.map (·.symbol)).Nodup)
+    (hdt : DTFree b) {s : State} (hok : TablesOK b s) (op : Op) : TablesOK b (step b s op).1 := by
+  by_cases hop : ∃ t, op = .newTable t
+  · obtain ⟨t, rfl⟩ := hop
+    exact tablesOK_newTable hz hsym hdt hok t
+  · obtain ⟨h1, h2, h3⟩ := frame_step_ne b s op (fun t h => hop ⟨t, h⟩)
+    intro t ht r hr
+    rw [h1] at ht
+    rw [h2, h3]
+    exact hok t ht r hr
+
+theorem tablesOK_run {b : Base} (hz : (b.map (·.z)).Nodup) (hsym : (b.map (·.symbol)).Nodup)
+    (hdt : DTFree b) : ∀ (ops : List Op) {s : State}, TablesOK b s → TablesOK b (run b s ops)
+  | [], _, h => h
+  | op :: ops, _, h => tablesOK_run hz hsym hdt ops (tablesOK_step hz hsym hdt h op)
+
+theorem tablesOK_init (b : Base) : TablesOK b init := by
+  intro t ht; simp [init] at ht
+
+end PtCore
